@@ -24,6 +24,8 @@ type Program struct {
 	// Funcs maps our canonical function key to the ssa function.
 	Funcs map[string]*ssa.Function
 	mutGlobals map[*types.Var]bool
+	globalAlias map[*types.Var]*types.Var
+	globalFresh map[*types.Var]bool
 }
 
 // mutableGlobal: is the package-level variable assigned anywhere outside package initialisation?
@@ -217,4 +219,51 @@ func dumpSSA(p *Program, key string) {
 		return
 	}
 	f.WriteTo(os.Stdout)
+}
+
+// globalInit classifies how a repo package-level variable is initialised: by a call that creates a new error
+// value (fresh == true), or as a copy of another package-level variable (alias != nil).
+func (p *Program) globalInit(v *types.Var) (fresh bool, alias *types.Var) {
+	if p.globalAlias == nil {
+		p.globalAlias = map[*types.Var]*types.Var{}
+		p.globalFresh = map[*types.Var]bool{}
+		for _, sp := range p.ByPkg {
+			init := sp.Func("init")
+			if init == nil {
+				continue
+			}
+			for _, b := range init.Blocks {
+				for _, ins := range b.Instrs {
+					st, ok := ins.(*ssa.Store)
+					if !ok {
+						continue
+					}
+					g, ok := st.Addr.(*ssa.Global)
+					if !ok {
+						continue
+					}
+					gv, ok := g.Object().(*types.Var)
+					if !ok {
+						continue
+					}
+					switch x := st.Val.(type) {
+					case *ssa.Call:
+						if f, ok := x.Call.Value.(*ssa.Function); ok {
+							switch f.String() {
+							case "errors.New", "fmt.Errorf":
+								p.globalFresh[gv] = true
+							}
+						}
+					case *ssa.UnOp:
+						if h, ok := x.X.(*ssa.Global); ok {
+							if hv, ok := h.Object().(*types.Var); ok {
+								p.globalAlias[gv] = hv
+							}
+						}
+					}
+				}
+			}
+		}
+	}
+	return p.globalFresh[v], p.globalAlias[v]
 }
